@@ -101,6 +101,10 @@ class Report:
         violations = []
         known_hits = {}
         rdir = os.path.join(VERIF, "replays", self.prop)
+        if os.path.isdir(rdir):
+            import shutil
+
+            shutil.rmtree(rdir)  # replay files belong to the run that wrote them
         for f in self.failures:
             k = self.match_known(f, known)
             if k is not None:
